@@ -1,5 +1,5 @@
 /- Line-protocol driver for the reachability model (C18).
-   prog <id> / type named <u> | type iface <names|-> <embedded|-> | type other /
+   prog <id> / opt noexec / type named <u> | type iface <names|-> <embedded|-> | type other /
    fn <name> <hasPkg> <pkgName|-> <anon|-> / i <kind> <ops|-> <call> <conv> <widen> / end
    ->  res <id> wf=.. known=.. complete=.. widening=.. r00=.. r01=.. r10=.. r11=.. exec=.. stable=.. missing=g:reason;.. -/
 import Argot.Model.ReachGen
@@ -47,6 +47,7 @@ structure PAcc where
   fns : Array Fn := #[]
   cur : Option (String × Bool × String × List Nat) := none
   instrs : Array Instr := #[]
+  noexec : Bool := false
   bad : Bool := false
 
 def PAcc.flush (a : PAcc) : PAcc :=
@@ -99,7 +100,7 @@ def blame (T : Tables) (P : Prog) (reach : List Nat) : Nat → List Nat → List
       let done := step.map (·.1)
       blame T P reach k (todo.filter fun g => !done.contains g) (acc ++ step)
 
-def answer (id : String) (P : Prog) : String :=
+def answer (id : String) (P : Prog) (noexec : Bool) : String :=
   let T := genTables
   let b (x : Bool) := if x then "1" else "0"
   let r00 := asSet (findReachable T P false false)
@@ -107,8 +108,8 @@ def answer (id : String) (P : Prog) : String :=
   let r10 := asSet (findReachable T P true false)
   let r11 := asSet (findReachable T P true true)
   let roots := entryPoints P false false
-  let E := execSet P roots
-  let st := stable P roots E
+  let E := if noexec then [] else execSet P roots
+  let st := noexec || stable P roots E
   let miss := (asSet E).filter fun g => !r00.contains g
   let reasons := blame T P r00 (miss.length + 1) miss []
   let ms := reasons.map fun (g, r) => s!"{g}:{r}"
@@ -120,6 +121,7 @@ partial def loop (h : IO.FS.Stream) (acc : PAcc) : IO Unit := do
   let ws := (line.trimAscii.toString.splitOn " ").filter (· ≠ "")
   match ws with
   | ["prog", id] => loop h { id := id }
+  | ["opt", "noexec"] => loop h { acc with noexec := true }
   | ["type", "named", u] =>
     match u.toNat? with
     | some n => loop h { acc with types := acc.types.push (.named n) }
@@ -142,7 +144,7 @@ partial def loop (h : IO.FS.Stream) (acc : PAcc) : IO Unit := do
   | ["end"] =>
     let a := acc.flush
     if a.bad then IO.println s!"bad-record {a.id}"
-    else IO.println (answer a.id { fns := a.fns.toList, types := a.types.toList })
+    else IO.println (answer a.id { fns := a.fns.toList, types := a.types.toList } a.noexec)
     loop h {}
   | [] => loop h acc
   | _ => loop h { acc with bad := true }
